@@ -79,6 +79,7 @@ fn main() {
         "selftest" => tools::selftest(),
         "strip" => strip::strip_file(&args[2], &args[3]),
         "compile" => tools::compile_cmd(&args[2..]),
+        "prepare-js" => tools::prepare_js(&args[2]),
         _ => {
             println!("usage: sim check <C04|C10|C14> [--tier quick|thorough] | replay <file> | selftest | strip <in.ts> <out.js> | compile ...");
             2
